@@ -277,6 +277,16 @@ static bool sameAsRef(int c) {
 #endif
 }
 
+// what `it->` yields: operator-> of a class-type iterator, the pointer itself for a pointer iterator
+template <class It>
+static auto arrowOf(const It &it) -> decltype(it.operator->()) {
+  return it.operator->();
+}
+template <class T>
+static const T *arrowOf(const T *p) {
+  return p;
+}
+
 template <class It, class C>
 static std::string itVal(It it, const C &c) {
   return it == c.end() ? std::string("end") : std::to_string(val(*it));
@@ -654,8 +664,16 @@ int main() {
         } else if (op == "iter") {
           // forward and reverse walks visit every element exactly once
           std::vector<int> f, b;
-          for (auto it = s.begin(); it != s.end(); ++it) f.push_back(val(*it));
-          for (auto it = s.rbegin(); it != s.rend(); ++it) b.push_back(val(*it));
+          bool arrowOk = true;  // `it->` designates the element `*it` designates, for forward and reverse iterators
+          for (auto it = s.begin(); it != s.end(); ++it) {
+            f.push_back(val(*it));
+            if (arrowOf(it) != std::addressof(*it)) arrowOk = false;
+          }
+          for (auto it = s.rbegin(); it != s.rend(); ++it) {
+            b.push_back(val(*it));
+            if (arrowOf(it) != std::addressof(*it)) arrowOk = false;
+          }
+          if (!arrowOk) oracle = "MISMATCH-arrow";
           std::reverse(b.begin(), b.end());
           ret = std::to_string(f.size()) + (f == b ? "=" : "!") + std::to_string(b.size());
           if (f != b || f.size() != r.size()) oracle = "MISMATCH-iter";
